@@ -77,6 +77,8 @@ where
         x: Sx::Elem,
     ) -> Result<(), InterpolateError> {
         let this = interpolator;
+        #[cfg(ndarray_interp_verif)]
+        crate::verif_hooks::sched_point("linear:enter");
         if !self.extrapolate && !this.is_in_range(x) {
             return Err(InterpolateError::OutOfBounds(format!(
                 "x = {x:#?} is not in range",
@@ -85,6 +87,8 @@ where
 
         // find the relevant index
         let idx = this.get_index_left_of(x);
+        #[cfg(ndarray_interp_verif)]
+        crate::verif_hooks::sched_point("linear:after_lookup");
 
         // lookup the data
         let (x1, y1) = this.index_point(idx);
@@ -94,6 +98,8 @@ where
         Zip::from(y1).and(y2).and(target).for_each(|&y1, &y2, t| {
             *t = Self::calc_frac((x1, y1), (x2, y2), x);
         });
+        #[cfg(ndarray_interp_verif)]
+        crate::verif_hooks::sched_point("linear:exit");
         Ok(())
     }
 }
